@@ -1,4 +1,5 @@
 import KpModel.Key
+import KpModel.Codec.Base64
 /-!
 # C20 — credentials derive the KeePass composite key in every documented encoding
 Property theorems only.  Model: `KpModel/Key.lean` (tied to the real key derivation by the correspondence
@@ -106,5 +107,51 @@ theorem kdb_single_element_not32 (P : KeyPrims) (c : Creds) (e : Bytes)
 theorem kdb_not32_witness :
     compositeKdb ⟨fun _ => [], fun _ => [], fun _ => some [1, 2, 3], fun _ => none⟩
       ⟨none, some ([], .wellFormed none (some ['A']))⟩ = .errNot32 := by decide
+
+
+/-! ### version-2 key files: the hex payload, any case (executable `hex::decode` model `Kp.Codec.hexDecode`) -/
+
+/-- one hex digit, lower or upper case (statement-side writer) -/
+def hexDigit (upper : Bool) (k : Nat) : Char :=
+  if k < 10 then Char.ofNat (48 + k) else if upper then Char.ofNat (55 + k) else Char.ofNat (87 + k)
+
+/-- a byte string written in hex, each digit in the case `cs` chooses for its position -/
+def hexWrite (cs : Nat → Bool) : Nat → Bytes → Str
+  | _, [] => []
+  | i, x :: r => hexDigit (cs i) (x.toNat / 16) :: hexDigit (cs (i + 1)) (x.toNat % 16) :: hexWrite cs (i + 2) r
+
+theorem hexVal_hexDigit : ∀ u k, k < 16 → Kp.Codec.hexVal (hexDigit u k) = some k := by decide
+theorem isWs_hexDigit : ∀ u k, k < 16 → isWs (hexDigit u k) = false := by decide
+
+theorem hexDecode_hexWrite (cs : Nat → Bool) (i : Nat) (b : Bytes) :
+    Kp.Codec.hexDecode (hexWrite cs i b) = some b := by
+  induction b generalizing i with
+  | nil => simp [hexWrite, Kp.Codec.hexDecode]
+  | cons x r ih =>
+    have h := UInt8.toNat_lt x
+    have e : x.toNat / 16 * 16 + x.toNat % 16 = x.toNat := by omega
+    simp only [hexWrite, Kp.Codec.hexDecode, hexVal_hexDigit _ _ (show x.toNat / 16 < 16 by omega),
+      hexVal_hexDigit _ _ (show x.toNat % 16 < 16 by omega), ih, e, UInt8.ofNat_toNat]
+
+theorem stripWs_hexWrite (cs : Nat → Bool) (i : Nat) (b : Bytes) :
+    stripWs (hexWrite cs i b) = hexWrite cs i b := by
+  induction b generalizing i with
+  | nil => simp [hexWrite, stripWs]
+  | cons x r ih =>
+    have h := UInt8.toNat_lt x
+    have ih' := ih (i + 2)
+    simp only [stripWs] at ih' ⊢
+    simp only [hexWrite, List.filter_cons, isWs_hexDigit _ _ (show x.toNat / 16 < 16 by omega),
+      isWs_hexDigit _ _ (show x.toNat % 16 < 16 by omega), ih']
+    simp
+
+/-- every key has version-2 key files, and each of them — in any mixture of upper and lower case —
+    yields exactly that key -/
+theorem keyfile_v2_every_key (P : KeyPrims) (hP : P.hex = Kp.Codec.hexDecode) (buf : Bytes) (cs : Nat → Bool) (k : Bytes) :
+    keyfileKey P buf (.wellFormed (some v2) (some (hexWrite cs 0 k))) = k := by
+  simp [keyfileKey, xmlKey, hP, stripWs_hexWrite, hexDecode_hexWrite]
+
+/-! Non-vacuity -/
+example : hexWrite (fun i => i % 2 == 0) 0 [0xAB, 0x0F] = ['A', 'b', '0', 'f'] := by decide
 
 end Kp.Key
